@@ -44,6 +44,7 @@
 #include <errno.h>
 
 #include <regex.h>
+#include <limits.h>
 #include <ctype.h>
 
 #include "src/common/hostlist.h"
@@ -442,7 +443,7 @@ static int string_to_int (const char *val, int *p2int)
 
     errno = 0;
     n = strtoul (val, &p, 10);
-    if (errno || (*p != '\0'))
+    if (errno || (p == val) || (*p != '\0') || (n < 0) || (n > INT_MAX))
         return (-1);
 
     *p2int = (int) n;
